@@ -50,6 +50,12 @@ def programs(rng, quick):
                     extra.append(dict(p, gated_tasks=[1], get_after={1: 0}))
             if p["shutter"]:
                 extra.append(dict(p, shutdown_via_terminate=True))
+    # two overlapping waitall() callers, the timed one gives up while a task is still running; when the task finishes the other one wakes up
+    for hp in (False,):
+        extra.append(dict(mto=False, hasprimary=hp, spawners=["s1"], tasks_per=1, shutter=False, waiters=["w1", "w2"], timed=["w2"],
+                          gated_tasks=[1], timeout_opens_gates=True))
+        extra.append(dict(mto=False, hasprimary=hp, spawners=["s1"], tasks_per=2, shutter=False, waiters=["w1", "w2", "w3"], timed=["w2"],
+                          gated_tasks=[1], timeout_opens_gates=True))
     if quick:
         progs.append(dict(mto=False, hasprimary=True, spawners=["s1", "s2", "s3"], tasks_per=1, shutter=True, waiters=["w1"]))
         progs.append(dict(mto=True, hasprimary=True, spawners=["s1", "s2", "s3"], tasks_per=2, shutter=True, waiters=["w1", "w2"], timed=["w2"]))
